@@ -281,10 +281,19 @@ impl<H: Hasher> MerkleTree<H> {
         index: usize,
         proof: &[H::Digest],
     ) -> Result<(), MerkleTreeError> {
+        // a path consists of a leaf, its sibling, and one node for every other level of the tree
+        if proof.len() < 2 || proof.len() > usize::BITS as usize {
+            return Err(MerkleTreeError::InvalidProof);
+        }
+        let num_leaves = 1usize << (proof.len() - 1);
+        if index >= num_leaves {
+            return Err(MerkleTreeError::LeafIndexOutOfBounds(num_leaves, index));
+        }
+
         let r = index & 1;
         let mut v = H::merge(&[proof[r], proof[1 - r]]);
 
-        let mut index = (index + 2usize.pow((proof.len() - 1) as u32)) >> 1;
+        let mut index = (index + num_leaves) >> 1;
         for &p in proof.iter().skip(2) {
             v = if index & 1 == 0 {
                 H::merge(&[v, p])
